@@ -1332,6 +1332,16 @@ func (w *Wallet) selectProofsForAmount(
 
 		proofsForRemainingAmount, err := selectProofsToSend(activeKeysetProofs, remainingAmount, mint, includeFees)
 		if err != nil {
+			// the fees for the inactive and for the active proofs were each rounded up on their
+			// own but the mint rounds the fees for all the inputs once. Check if all proofs are enough
+			allProofs := append(slices.Clone(selectedProofs), activeKeysetProofs...)
+			var allFees uint64 = 0
+			if includeFees {
+				allFees = uint64(feesForProofs(allProofs, mint))
+			}
+			if allProofs.Amount() >= amount+allFees {
+				return allProofs, nil
+			}
 			return nil, err
 		}
 		selectedProofs = append(selectedProofs, proofsForRemainingAmount...)
